@@ -5,9 +5,6 @@ From Coq Require Import Permutation.
 
 (* ------------------------------------------------------------------ placed objects (spec side) *)
 
-Definition place_note (n : note) : placed := PNote (oid n) (onset n) (ndur n).
-Definition place_other (o : other) : placed :=
-  POther (match o_div o with Some _ => 1 | None => o_tag o end) (o_onset o).
 
 (* ------------------------------------------------------------------ interp: basic facts *)
 
@@ -104,14 +101,6 @@ Qed.
 
 (* ------------------------------------------------------------------ merge_with_voice *)
 
-(* what the reader must output for one voice: the others up to each note, then the note *)
-Fixpoint mwv_placed (N : list (note * bool)) (Os : list other) : list placed :=
-  match N with
-  | [] => map place_other Os
-  | (n, _) :: r =>
-      map place_other (fst (span_le (onset n) Os)) ++
-      place_note n :: mwv_placed r (snd (span_le (onset n) Os))
-  end.
 
 Lemma mwv_placed_perm : forall N Os,
   Permutation (mwv_placed N Os) (map (fun p => place_note (fst p)) N ++ map place_other Os).
@@ -375,15 +364,18 @@ Proof.
     rewrite app_assoc. apply Permutation_app_tail. exact H2.
 Qed.
 
+Arguments rvp_single : simpl never.
+
 Lemma rvp_loop_perm vmax : forall byv st,
   Permutation (flat_map snd (fst (rvp_loop vmax byv st)) ++ flat_map snd (snd (snd (rvp_loop vmax byv st))))
               (flat_map snd byv ++ flat_map snd (snd st)).
 Proof.
-  induction byv as [|[v l] r IH]; intros st; simpl; [reflexivity|].
+  induction byv as [|[v l] r IH]; intros st; [simpl; reflexivity|].
+  cbn [rvp_loop].
   pose proof (rvp_single_perm vmax l st) as H1.
-  destruct (rvp_single vmax l st) as [kept st1]. simpl in H1.
+  destruct (rvp_single vmax l st) as [kept st1]. cbn [fst snd] in H1.
   specialize (IH st1).
-  destruct (rvp_loop vmax r st1) as [r' st2]. simpl in *.
+  destruct (rvp_loop vmax r st1) as [r' st2]. cbn [fst snd flat_map] in *.
   rewrite <- !app_assoc.
   eapply Permutation_trans; [apply Permutation_app_head, IH|].
   rewrite !app_assoc.
@@ -427,7 +419,6 @@ Fixpoint lv_placed (first : bool) (vs : list (Z * list note)) (Os : list other) 
 Lemma tag_chords_fst : forall l prev, map fst (tag_chords prev l) = l.
 Proof. induction l as [|n r IH]; intros prev; simpl; [reflexivity|]. rewrite IH. reflexivity. Qed.
 
-Definition durs_ok (l : list note) : Prop := Forall (fun n => 0 <= dur n) l.
 
 Lemma nonneg_tag l prev : durs_ok l -> nonneg (tag_chords prev l).
 Proof.
@@ -490,11 +481,6 @@ Qed.
 
 (* ------------------------------------------------------------------ segments and the measure *)
 
-Definition seg_placed (seg : list note * list other) : list placed :=
-  map place_note (fst seg) ++ map place_other (snd seg).
-
-Definition segs_ok (segs : list (list note * list other)) : Prop :=
-  Forall (fun seg => durs_ok (fst seg)) segs.
 
 Lemma voices_durs_ok ns : durs_ok ns -> Forall (fun vl => durs_ok (snd vl)) (voices_of ns).
 Proof.
@@ -568,3 +554,153 @@ Proof.
     + simpl. lia.
   - exists pl, (mkI p l' m). repeat split; try assumption. simpl. lia.
 Qed.
+
+(* ------------------------------------------------------------------ measure extent *)
+
+Definition tnotes_le (B : Z) (N : list (note * bool)) : Prop :=
+  Forall (fun p => onset (fst p) + ndur (fst p) <= B) N.
+
+Lemma emit_others_max_le B : forall Os t mx,
+  mx <= B -> others_le B Os -> snd (emit_others Os t mx) <= B.
+Proof.
+  induction Os as [|o r IH]; intros t mx Hm Ho; simpl; [assumption|].
+  inversion Ho as [|x y H1 H2]; subst x y.
+  specialize (IH (o_onset o) (Z.max mx (o_onset o))).
+  destruct (emit_others r (o_onset o) (Z.max mx (o_onset o))) as [[es t'] mx']. simpl in *.
+  apply IH; [lia|assumption].
+Qed.
+
+Lemma span_le_others_le B t Os :
+  others_le B Os -> others_le B (fst (span_le t Os)) /\ others_le B (snd (span_le t Os)).
+Proof.
+  intros H. unfold others_le in *. rewrite <- (span_le_app t Os) in H.
+  apply Forall_app in H. exact H.
+Qed.
+
+Lemma mwv_max_le B v : forall N Os t lno mx,
+  mx <= B -> others_le B Os -> tnotes_le B N -> snd (mwv v N Os t lno mx) <= B.
+Proof.
+  induction N as [|[n ch] r IH]; intros Os t lno mx Hm Ho Hn; simpl.
+  - apply emit_others_max_le; assumption.
+  - inversion Hn as [|x y H1 H2]; subst x y. simpl in H1.
+    destruct (span_le_others_le B (onset n) Os Ho) as [Ha Hb].
+    destruct (span_le (onset n) Os) as [Os1 Os2]. simpl in Ha, Hb.
+    pose proof (emit_others_max_le B Os1 t mx Hm Ha) as HE.
+    destruct (emit_others Os1 t mx) as [[es1 t1] mx1]. simpl in HE.
+    specialize (IH Os2 (onset n + ndur n) (onset n) (Z.max mx1 (onset n + ndur n))).
+    destruct (mwv v r Os2 (onset n + ndur n) (onset n) (Z.max mx1 (onset n + ndur n))) as [[es2 t2] mx2].
+    simpl in *. apply IH; [lia|assumption|assumption].
+Qed.
+
+Lemma lin_voices_max_le B : forall vs first Os pos mx,
+  mx <= B -> others_le B Os -> Forall (fun vl => notes_le B (snd vl)) vs ->
+  snd (lin_voices first vs Os pos mx) <= B.
+Proof.
+  induction vs as [|[v l] r IH]; intros first Os pos mx Hm Ho Hn; simpl; [assumption|].
+  inversion Hn as [|x y H1 H2]; subst x y. simpl in H1.
+  set (N := tag_chords None (sort_notes l)).
+  assert (HN : tnotes_le B N).
+  { unfold tnotes_le, N.
+    assert (H : Forall (fun n => onset n + ndur n <= B) (map fst (tag_chords None (sort_notes l)))).
+    { rewrite tag_chords_fst. eapply Permutation_Forall; [apply Permutation_sym, sort_notes_perm|exact H1]. }
+    rewrite Forall_map in H. exact H. }
+  pose proof (mwv_max_le B v N (if first then Os else []) pos pos mx Hm) as HM.
+  destruct (mwv v N (if first then Os else []) pos pos mx) as [[es p] m]. simpl in HM.
+  specialize (IH false Os p m).
+  destruct (lin_voices false r Os p m) as [[es' p'] m']. simpl in *.
+  apply IH; try assumption. apply HM; [|assumption].
+  destruct first; [assumption|constructor].
+Qed.
+
+Lemma lin_segs_max_le B : forall segs pos mx,
+  mx <= B ->
+  Forall (fun seg => notes_le B (fst seg) /\ others_le B (snd seg)) segs ->
+  snd (lin_segs segs pos mx) <= B.
+Proof.
+  induction segs as [|[ns Os] r IH]; intros pos mx Hm H; simpl; [assumption|].
+  inversion H as [|x y [H1 H2] H3]; subst x y. simpl in H1, H2.
+  assert (HL : snd (lin_segment ns Os pos mx) <= B).
+  { unfold lin_segment. apply lin_voices_max_le; try assumption.
+    - unfold others_le in *. eapply Permutation_Forall; [apply Permutation_sym, sort_others_perm|assumption].
+    - apply Forall_forall. intros [v l] Hin. simpl. unfold notes_le in *.
+      apply Forall_forall. intros n Hn.
+      assert (Hf : In n (flat_map snd (voices_of ns))).
+      { apply in_flat_map. exists (v, l). split; assumption. }
+      eapply Permutation_in in Hf; [|apply voices_of_perm].
+      rewrite Forall_forall in H1. auto. }
+  destruct (lin_segment ns Os pos mx) as [[es p] m]. simpl in HL.
+  specialize (IH p m HL H3).
+  destruct (lin_segs r p m) as [[es' p'] m']. simpl in *. exact IH.
+Qed.
+
+(* a measure whose notes and other elements lie inside [ms, me] is read back with exactly that extent *)
+Lemma measure_extent_lemma : forall segs ms me,
+  segs_ok segs -> ms <= me ->
+  Forall (fun seg => notes_le me (fst seg) /\ others_le me (snd seg)) segs ->
+  imax (snd (interp (lin_measure segs ms me) (mkI ms ms ms))) = me.
+Proof.
+  intros segs ms me Hok Hle Hin.
+  destruct (interp_linearize_lemma segs ms me Hok) as (pl & s' & H1 & _ & H3).
+  rewrite H1. simpl. rewrite H3.
+  pose proof (lin_segs_max_le me segs ms ms Hle Hin). lia.
+Qed.
+
+(* position after one voice = end of its last element (what the voice switch relies on) *)
+Lemma interp_position_end_lemma : forall l Os v pos mx s,
+  durs_ok l -> ipos s = pos -> imax s = mx -> pos <= mx ->
+  let N := tag_chords None (sort_notes l) in
+  ipos (snd (interp (fst (fst (mwv v N Os pos pos mx))) s)) = snd (fst (mwv v N Os pos pos mx)).
+Proof.
+  intros l Os v pos mx s Hd Hp Hm Hle N.
+  pose proof (mwv_interp N Os v pos pos mx s None) as HM.
+  destruct (mwv v N Os pos pos mx) as [[es p] m]. simpl.
+  destruct HM as (l1 & HM1 & HM2); try assumption.
+  - apply tag_chords_ok. exact I.
+  - apply nonneg_tag. eapply durs_ok_perm; [apply Permutation_sym, sort_notes_perm|assumption].
+  - exact I.
+  - rewrite HM1. reflexivity.
+Qed.
+
+(* ------------------------------------------------------------------ ties *)
+
+Lemma fold_split_at b : forall r d,
+  fold_left (fun a x => a + snd x) (split_at b r) d = fold_left (fun a x => a + snd x) r d.
+Proof.
+  induction r as [|[o d'] r IH]; intros d; simpl; [reflexivity|].
+  destruct ((o <? b) && (b <? o + d')); simpl.
+  - f_equal. lia.
+  - apply IH.
+Qed.
+
+(* the sounding note of a tie chain (onset of the head, summed duration) does not change when a
+   piece is split at a barline *)
+Lemma sounding_merge_ties_lemma b c : chain_sound (split_at b c) = chain_sound c.
+Proof.
+  destruct c as [|[o d] r]; simpl; [reflexivity|].
+  destruct ((o <? b) && (b <? o + d)); simpl.
+  - f_equal. f_equal. f_equal. lia.
+  - rewrite fold_split_at. reflexivity.
+Qed.
+
+(* ------------------------------------------------------------------ a non-trivial instance *)
+
+(* two voices; voice 2 has a gap (4..8) and a grace note; voice 1 has a chord with unequal
+   durations (the longer member is moved to voice 3) and a divisions change mid-measure *)
+Definition ex_seg1 : list note * list other :=
+  ([mkN 1 0 8 1 false (-480); mkN 2 0 4 1 false (-500); mkN 3 4 4 1 false (-480);
+    mkN 4 0 4 2 false (-400); mkN 5 8 0 2 true 0; mkN 6 8 4 2 false (-410)],
+   [mkO 0 1 (Some 4); mkO 6 2 None]).
+Definition ex_seg2 : list note * list other :=
+  ([mkN 7 12 6 1 false (-480)], [mkO 12 1 (Some 6)]).
+
+Example ex_hypotheses : segs_ok [ex_seg1; ex_seg2].
+Proof. repeat constructor; simpl; lia. Qed.
+
+Example ex_linearize :
+  lin_measure [ex_seg1; ex_seg2] 0 24 =
+  [EDivisions 4; ENote 2 4 false false 1; ENote 3 4 false false 1;
+   EBackup 2; EOther 2;
+   EBackup 6; ENote 4 4 false false 2; EForward 4; ENote 5 0 false true 2; ENote 6 4 false false 2;
+   EBackup 12; ENote 1 8 false false 3;
+   EForward 4; EDivisions 6; ENote 7 6 false false 1; EForward 6].
+Proof. vm_compute. reflexivity. Qed.
